@@ -5,6 +5,9 @@ cd /verif
 pat=${1:-.}
 out=.run/seed_regress.txt; mkdir -p .run; : > $out
 [ -n "$(git -C /repo status --short)" ] && { echo "/repo is not clean"; exit 2; }
+# the evidence files and replays written by runs against seeded changes are not evidence: keep the current ones aside
+keep=$(mktemp -d); cp -a evidence "$keep/evidence"; cp -a replays "$keep/replays"
+trap 'rm -rf /verif/evidence /verif/replays; cp -a "$keep/evidence" /verif/evidence; cp -a "$keep/replays" /verif/replays; rm -rf "$keep"' EXIT
 for d in seeded/*/; do
   s=$(basename $d); echo $s | grep -Eq "$pat" || continue
   id=${s:0:3}
